@@ -488,10 +488,90 @@ def tree_part(driver, rng, n, acc):
         acc.check(op, inp, got, exp)
 
 
+# ---------------------------------------------------------------------------------------------- adversarial fuel
+def _nest(k):
+    return ''.join(('*' if i % 2 == 0 else '_') + 'a ' for i in range(k)) + \
+        ''.join(' b' + ('*' if i % 2 == 0 else '_') for i in reversed(range(k)))
+
+
+def _nest2(k):
+    return ''.join('**' if i % 2 else '*' for i in range(k)) + 'x' + ''.join('**' if i % 2 else '*' for i in reversed(range(k)))
+
+
+FUEL_FAMILIES = {
+    'esc': lambda k: '\\a' * k + '\\*' * k,              # quadratic pattern loop (the loopFuel counterexample)
+    'undefref': lambda k: '[x]' * k + '[y](z)' * k,
+    'undefref2': lambda k: '[a][b]' * k + '*c*' * k,
+    'em': lambda k: '*a*' * k,
+    'bt': lambda k: '`a`' * k + '``' * k,
+    'btrun': lambda k: '`' * k + 'a' + '`' * (k - 1),
+    'nest': _nest, 'nest2': _nest2,                       # depthFuel, build fuel, runFuel (deep element nesting)
+    'linkchain': lambda k: '[' * k + 'a' + '](u)' * k,
+    'linknest': lambda k: '[a ' * k + '](u)' * k,
+    'img': lambda k: '![a](b "t")' * k,
+    'star': lambda k: ' * ' * k,                          # not_strong strings: ppLoop
+    'under': lambda k: 'a_b' * k + '_',
+    'stars': lambda k: '*' * k,
+    'stars_sp': lambda k: '* ' * k + '*',
+    'amp': lambda k: '&amp;' * k,
+    'br': lambda k: 'a  \n' * k,
+    'mix': lambda k: '\\a[x]*b* `c` [d](e) &lt; _f_ ' * (k // 8 + 1),
+    'quote': lambda k: '[a]("' + '(' * k,
+}
+
+
+def fuel_part(driver, rng, n, acc):
+    """long single text nodes (300–2000 characters) of the shapes that make the loops of the inline engine run
+    longest; a fuel that is too small shows up as `oof` against a real result"""
+    md = markdown.Markdown()
+    names = sorted(FUEL_FAMILIES)
+    reqs, checks = [], []
+    old = sys.getrecursionlimit()
+    sys.setrecursionlimit(max(old, 20000))
+    try:
+        for j in range(max(len(names), n // 250)):
+            name = names[j % len(names)]
+            if rng.random() < 0.25:     # a mix of two families in one node
+                other = rng.choice(names)
+                src = FUEL_FAMILIES[name](rng.randint(20, 200)) + ' ' + FUEL_FAMILIES[other](rng.randint(20, 200))
+                name = name + '+' + other
+            else:
+                src = FUEL_FAMILIES[name](rng.randint(100, 500))
+            src = src[:2000].replace('<', '')
+            t = proto.T('n', 'div', children=[proto.T('n', 'p', text=src)])
+            if rng.random() < 0.3:      # the same text as a tail and next to a child with children
+                t.children[0].children = [proto.T('n', 'span', text='x', tail=src[:600], children=[proto.T('n', 'b', text='*y*')])]
+            md.reset()
+            root = proto.to_etree(t)
+            try:
+                md.treeprocessors['inline'].run(root)
+            except RecursionError:
+                acc.dist['skip:fuel-RecursionError'] += 1
+                continue
+            t1 = proto.from_etree(root)
+            sn = md.treeprocessors['inline'].stashed_nodes
+            summary = [('s' + v) if isinstance(v, str) else ('n' + v.tag + ''.join(' ' + x for x in v.attrib.values()))
+                       for _, v in sorted(sn.items(), key=lambda kv: int(kv[0]))]
+            stash = [str(x) for x in md.htmlStash.rawHtmlBlocks]
+            acc.dist['fuel:' + name.split('+')[0]] += 1
+            reqs.append(('inline', proto.enc_tree(t), '-'))
+            checks.append(('inline.fuel', (name, len(src), src[:60]), (t1.key(keep_none=False), stash, summary), dec_tree_answer))
+    finally:
+        sys.setrecursionlimit(old)
+    answers = driver.ask_many(reqs)
+    for (op, inp, exp, dec), ans in zip(checks, answers):
+        try:
+            got = dec(ans) if ans.startswith('ok ') else ans
+        except Exception as e:
+            got = 'undecodable: %r (%s)' % (ans[:80], e)
+        acc.check(op, inp, got, exp)
+
+
 def run(driver, rng, n):
     acc = Acc()
     docs_part(driver, rng, n, acc)
     tree_part(driver, rng, n, acc)
+    fuel_part(driver, rng, n, acc)
     unit_part(driver, rng, n, acc)
     synth_part(driver, rng, n, acc)
     return {'cases': acc.cases, 'distinct': len(acc.inputs), 'disagreements': acc.dis, 'samples': acc.samples,
